@@ -2,7 +2,7 @@
 # working tree of the repository. Called by ./check inside the Coq build lock, before `make`.
 import hashlib, json, os, tempfile
 
-TABLES = {"handlers": "Handlers.v"}
+TABLES = {"handlers": "Handlers.v", "mintsites": "MintSites.v", "blockers": "BlockerSurface.v", "determinism": "Determinism.v"}
 BROKEN = "(* gotrans failed on the current tree *)\nDefinition handlers := gotrans_failed_on_the_current_tree_see_log.\n"
 
 
@@ -74,4 +74,18 @@ def generate(kind, REPO, COQ, BUILD, GOENV, run, log):
                             table_changed_since_last_run=changed,
                             sha1=hashlib.sha1(new.encode()).hexdigest(),
                         )
+                    if k == "mintsites":
+                        ss = json.loads(data)["sites"]
+                        info[k] = dict(
+                            sites=len(ss),
+                            bank_sites=sum(1 for x in ss if x["target"] == "bank"),
+                            entry_reachable_bank_sites=["%s:%d %s %s %s %s" % (x["file"], x["line"], x["func"], x["kind"], x["macc"], ",".join(x.get("origin") or []))
+                                                        for x in ss if x["target"] == "bank" and x["reach"] == "REntry"],
+                            not_entry_reachable=["%s:%d %s %s %s %s referrers=%s" % (x["file"], x["line"], x["func"], x["kind"], ",".join(x.get("origin") or []), x["reach"], ",".join(x.get("referrers") or []))
+                                                 for x in ss if x["reach"] != "REntry"],
+                            table_changed_since_last_run=changed,
+                            sha1=hashlib.sha1(new.encode()).hexdigest(),
+                        )
+            if k not in info:
+                info[k] = dict(table=name, bytes=len(new), table_changed_since_last_run=changed, sha1=hashlib.sha1(new.encode()).hexdigest())
     return info
